@@ -187,6 +187,9 @@ class ABNF:
         if self.opcode in (ABNF.OPCODE_CLOSE, ABNF.OPCODE_PONG) and not self.fin:
             raise WebSocketProtocolException("Control frames must not be fragmented.")
 
+        if self.opcode == ABNF.OPCODE_PONG and len(self.data) > 125:
+            raise WebSocketProtocolException("Pong message is too long")
+
         if self.opcode == ABNF.OPCODE_CLOSE:
             l = len(self.data)
             if not l:
